@@ -6,6 +6,7 @@ import (
 	"fmt"
 	"math/rand"
 	"os"
+	"runtime"
 	"strings"
 	"testing"
 
@@ -24,6 +25,9 @@ func TestDrive(t *testing.T) {
 		t.Skip("VH_OUT not set")
 	}
 	seed := int64(vh.EnvInt("VH_SEED", 1))
+	// one P: what happens between two gates is then scheduled the same way on
+	// every run, so that a recorded schedule replays exactly
+	runtime.GOMAXPROCS(vh.EnvInt("VH_PROCS", 1))
 	rot := &vh.Rot{Dir: out, Max: vh.EnvInt("VH_ROT", 120000)}
 	sf, err := os.Create(out + "/scenarios.ndjson")
 	if err != nil {
